@@ -67,6 +67,7 @@ type Ctx struct {
 	cur      *RuleInfo
 	Notes    []string // exclusions and assumptions stated in evidence
 	Assume   []string
+	Extra    map[string]any // tables and languages extracted on this run, reported in the evidence
 }
 
 func newCtx(P *Program, prop, tier string) *Ctx {
@@ -133,6 +134,14 @@ func (c *Ctx) Anchor(ok bool, what string) bool {
 		c.Unk("anchor/"+what, "-", "anchor could not be resolved on the current tree: "+what)
 	}
 	return ok
+}
+
+// Table records an extracted table in the evidence.
+func (c *Ctx) Table(name string, v any) {
+	if c.Extra == nil {
+		c.Extra = map[string]any{}
+	}
+	c.Extra[name] = v
 }
 
 func (c *Ctx) Note(format string, a ...any) { c.Notes = append(c.Notes, fmt.Sprintf(format, a...)) }
@@ -303,6 +312,9 @@ func (c *Ctx) finish(verif, out string, seed int, wall float64, explanation stri
 		"trusted_base": []string{"go/types and go/ssa (golang.org/x/tools v0.50.0) model of the program", "documented contracts of the Go standard library, github.com/golang/snappy and github.com/go-json-experiment/json", "linux/amd64 sizes and pointer maps from types.SizesFor(gc, amd64)"},
 	}
 	for k, v := range extra {
+		cov[k] = v
+	}
+	for k, v := range c.Extra {
 		cov[k] = v
 	}
 	ev := evidence{PropertyID: c.Property, Tier: c.Tier, Seed: seed, Level: "other", Coverage: cov,
